@@ -854,7 +854,8 @@ static Plan gen_usage(Rng& r, int, std::string const&)
     }
     default: R = 2 + r.below(1ULL << (1 + r.below(62))); break;
     }
-    u64 const lo = (R == 0) ? 0 : (r.chance(0.5) ? 0 : r.below(1000));
+    u64 lo = (R == 0) ? 0 : (r.chance(0.5) ? 0 : r.below(1000));
+    if (R != 0 && lo > ~0ULL - (R - 1)) lo = 0;   // keep lo + R - 1 inside 64 bits
     u64 const hi = (R == 0) ? ~0ULL : lo + (R - 1);
     p.aux.push_back(lo);
     p.aux.push_back(hi);
